@@ -460,7 +460,8 @@ def fold_limit_guards(m: Model, lgs):
             normal = got == ['TARGET']
             flag = len(got) == 1 and isinstance(got[0], dict) and got[0].get('flag') == 'quit'
             ok = (normal or flag) and (got2 == ['TARGET'] if normal else got2 == [])
-            out.append((ok, case, f'with no flag yet it offers {got!r}, with a flag already on the branch {got2!r}; expected either the rule\'s own targets '
+            show = lambda ts: [('a quit-flag target' if isinstance(t, dict) and t.get('flag') == 'quit' else t if isinstance(t, str) else 'a target') for t in ts]
+            out.append((ok, case, f'with no flag yet it offers {show(got)}, with a flag already on the branch {show(got2)}; expected either the rule\'s own targets '
                         f'or exactly one quit-flag target (none once flagged)'))
     for clsref, hname in suppressors:
         em = emitters[0][0].qualname
